@@ -25,5 +25,12 @@ with cf.ThreadPoolExecutor(max_workers=3) as ex:
         results.append({'name': m['name'], 'rc': rc, 'lines': lines})
         sys.stdout.flush()
 json.dump(results, open('/verif/tools/mutants_last_run.json', 'w'), indent=1)
+try:
+    allr = {r['name']: r for r in json.load(open('/verif/tools/mutants_all_runs.json'))}
+except Exception:
+    allr = {}
+for r in results:
+    allr[r['name']] = r
+json.dump(list(allr.values()), open('/verif/tools/mutants_all_runs.json', 'w'), indent=1)
 bad = [r['name'] for r in results if r['rc'] not in (0,)]
 print('NOT-OK:', bad)
